@@ -73,16 +73,16 @@ class ImplTimeout(Exception):
     `while` loop may not terminate and would otherwise eat all memory)"""
 
 
-WATCHDOG = 5.0
+WATCHDOG = 10.0     # seconds of CPU time of this process (not wall-clock: the machine may be loaded)
 
 
 def _on_alarm(sig, frame):
-    raise ImplTimeout("implementation call did not return within %.0f s" % WATCHDOG)
+    raise ImplTimeout("implementation call did not return within %.0f s of CPU time" % WATCHDOG)
 
 
 def kick():
     """(re)arm the watchdog; called before every call into the implementation"""
-    signal.setitimer(signal.ITIMER_REAL, WATCHDOG)
+    signal.setitimer(signal.ITIMER_VIRTUAL, WATCHDOG)
 
 
 ARMED = [False]
@@ -91,10 +91,10 @@ ARMED = [False]
 def watchdog(on):
     ARMED[0] = bool(on)
     if on:
-        signal.signal(signal.SIGALRM, _on_alarm)
+        signal.signal(signal.SIGVTALRM, _on_alarm)
         kick()
     else:
-        signal.setitimer(signal.ITIMER_REAL, 0)
+        signal.setitimer(signal.ITIMER_VIRTUAL, 0)
 
 
 def lib():
@@ -243,6 +243,8 @@ def formula_cases(ctx, n_small, n_big):
         return cache[key]
 
     for i in range(n_small + n_big):
+        if ARMED[0]:
+            kick()
         big_curve = i >= n_small
         cv = r.choice(big if big_curve else small)
         p, a, b, G, n = cv
@@ -661,7 +663,10 @@ def small_group_search(ctx, cvp, full):
                         _fail(ctx, "add-wrong", dict(cur, op="add", J1=list(ja), J2=list(jb)),
                               "got %r want %r (P=%r Q=%r)" % (got, want, P, Q))
                     if P is not None and Q is not None:
-                        eq = bool(mkpt(cv, P, z1, n) == mkpt(cv, Q, z2, n))
+                        try:
+                            eq = bool(mkpt(cv, P, z1, n) == mkpt(cv, Q, z2, n))
+                        except Exception as e:
+                            eq = "exception %r" % (e,)
                         if eq != (P == Q):
                             _fail(ctx, "eq-wrong", dict(cur, op="eq", J1=list(ja), J2=list(jb)), "got %r" % eq)
             A = mkpt(cv, P, z1, n)
@@ -673,14 +678,26 @@ def small_group_search(ctx, cvp, full):
                 got = "exception %r" % (e,)
             if got != a_add(P, P, p, a):
                 _fail(ctx, "double-wrong", dict(cur, op="double", J1=list(ja)), "got %r want %r" % (got, a_add(P, P, p, a)))
-            if to_aff(-mkpt(cv, P, z1, n), p) != a_neg(P, p):
-                _fail(ctx, "neg-wrong", dict(cur, op="neg", J1=list(ja)), "")
+            try:
+                kick()
+                got = to_aff(-mkpt(cv, P, z1, n), p)
+            except Exception as e:
+                got = "exception %r" % (e,)
+            if got != a_neg(P, p):
+                _fail(ctx, "neg-wrong", dict(cur, op="neg", J1=list(ja)), "got %r" % (got,))
             # affine Point class (used when a Point meets a PointJacobi)
             if P is not None:
                 for Q in pts[1:]:
-                    pp, qq = ec.Point(cv, P[0], P[1], n), ec.Point(cv, Q[0], Q[1], n)
-                    if to_aff(pp + qq, p) != a_add(P, Q, p, a) or to_aff(mkpt(cv, P, z1, n) + qq, p) != a_add(P, Q, p, a):
-                        _fail(ctx, "point-add-wrong", dict(cur, op="padd", P=list(P), Q=list(Q), z=z1), "")
+                    try:
+                        kick()
+                        pp, qq = ec.Point(cv, P[0], P[1], n), ec.Point(cv, Q[0], Q[1], n)
+                        got = (to_aff(pp + qq, p), to_aff(mkpt(cv, P, z1, n) + qq, p))
+                    except Exception as e:
+                        got = "exception %r" % (e,)
+                    want = a_add(P, Q, p, a)
+                    if got != (want, want):
+                        _fail(ctx, "point-add-wrong", dict(cur, op="padd", P=list(P), Q=list(Q), z=z1),
+                              "got %r want %r" % (got, want))
     ctx.nontrivial.add(("group", p, a, b))
     # scalars 0..3n
     kmax = 3 * n
@@ -784,8 +801,13 @@ def shipped_search(ctx):
                     _fail(ctx, "mul_add-wrong", dict(cur, op="mul_add-shipped", k1=k, k2=k2, Q=list(Q), g2=g2),
                           "got %r / %r want %r" % (got, got_b, want2))
         # n*G = INFINITY, (n-1)*G = -G
-        if to_aff(c.generator * n, p) is not None or to_aff(ec.PointJacobi(c.curve, G[0], G[1], 1) * n, p) is not None:
-            _fail(ctx, "order-wrong", dict(cur, op="order"), "n*G is not INFINITY")
+        try:
+            kick()
+            got = (to_aff(c.generator * n, p), to_aff(ec.PointJacobi(c.curve, G[0], G[1], 1) * n, p))
+        except Exception as e:
+            got = "exception %r" % (e,)
+        if got != (None, None):
+            _fail(ctx, "order-wrong", dict(cur, op="order"), "n*G is not INFINITY: %r" % (got,))
         # addition / doubling of random multiples in random scalings incl. equal and inverse operands
         for _ in range(8 if full else 3):
             k1 = r.randrange(1, n)
